@@ -102,6 +102,8 @@ theorem layerLoop_size (dest : Str) (o : Opts) : ∀ (es : List Entry) (st : LSt
         (layerLoop dest o es stY).All (Good (st0.size + sumSizes (e :: es))) := by
       intro stY h; rw [← hbase stY h]; exact ih stY
     simp only [layerLoop]
+    split
+    · exact recur _ rfl
     refine All_bind _ _ (stageP_all dest o e _ (clean e.name)) ?_
     intro stR hstR
     cases stR with
@@ -146,7 +148,10 @@ theorem reserved_skipped (dest : Str) (o : Opts) (e : Entry) (es : List Entry) (
     layerLoop dest o (e :: es) st = layerLoop dest o es { st with size := st.size + e.size } := by
   have h3' : (hasPrefix (clean e.name) whMetaPrefix && hasPrefix (clean e.name) whLinkDir && e.typ == Typ.reg) = false := by
     cases hl : hasPrefix (clean e.name) whLinkDir <;> cases ht : (e.typ == Typ.reg) <;> simp_all
-  simp only [layerLoop, stageP, h3', Bool.false_eq_true, if_false]
+  simp only [layerLoop]
+  split
+  · rfl
+  simp only [stageP, h3', Bool.false_eq_true, if_false]
   show Prog.bind (Prog.ret _) _ = _
   simp only [Prog.bind, h1, h2, ne_eq, not_false_eq_true, decide_true, Bool.and_self, if_true]
 
